@@ -293,6 +293,7 @@ def c16_rf16(run):
     rf_inline.rf56(run)
     rf_proto.rf66(run)
     run.min_instances('RF66', 4)
+    rf_x86.rf77(run)
     rf_dispatch.rf7g(run)
     run.min_instances('RF7g', 60)
 
@@ -349,6 +350,7 @@ def c03_rf11(run):
     rf_inline.rf56(run)
     rf_x86.rf64(run)
     run.min_instances('RF64', 10)
+    rf_x86.rf77(run)
 
 
 def c06_rf11(run):
